@@ -140,3 +140,17 @@ Inductive head_stmt :=
 | HSHeaders (fmt_name : list fmt_seg) (after : list N)
     (* for header in &response.headers { write!(fmt_name, header.name); extend(value as bytes); extend(after) } *)
 | HSExtend (t : list N).                      (* head_bytes.extend(t) *)
+
+(* accept_loop (src/accept.rs): the body of its `loop { .. }` *)
+Inductive acc_pat := APOk | APTooManyFiles | APErr | APNone.
+Inductive acc_act :=
+| AAHandToConn                  (* conn_handler.clone()(permit.new_sub(), token, stream, addr); *)
+| AALogError                    (* error(..).unwrap();  /  let _ = error(..); *)
+| AASleep (ms : N).             (* safina::timer::sleep_for(Duration::from_millis(ms)).await; *)
+Inductive acc_stmt :=
+| ASWaitTokenOrPermit           (* let opt_token = or(async { Some(token_set.async_wait_token().await) }, async { (&mut permit).await; None }).await; *)
+| ASWaitToken                   (* let token = token_set.async_wait_token().await;   (the code before D10) *)
+| ASReturnIfNoToken             (* let Some(token) = opt_token else { return; }; *)
+| ASReturnIfRevoked             (* if permit.is_revoked() { return; } *)
+| ASAcceptOrPermit (arms : list (acc_pat * list acc_act)).
+    (* match or(async { Some(AcceptResult::new(listener.accept().await)) }, async { (&mut permit).await; None }).await { arms } *)
